@@ -178,6 +178,10 @@ class EncFrame(Component):
                 bps = gen.SUBSET_BPS[(n * 7 + si) % len(gen.SUBSET_BPS)]
                 out.append(self.one(rng, n, 1, bps, sh, o, 44100))
                 out.append(self.one(rng, n, 2, bps, sh, o, 48000))
+        # 32-bit extremes: residuals at the edge of the 32-bit range
+        for n in range(2, 26):
+            for sh in ('edge', 'noise', 'alt'):
+                out.append(self.one(rng, n, 1, 32, sh, optsets[n % len(optsets)], 96000))
         nrand = self.budget(tier, boost, 600, 40000)
         for i in range(nrand):
             ch = rng.choice([1, 1, 2, 2, 2, 3, 4, 5, 6, 7, 8])
@@ -559,6 +563,65 @@ class WriterHist(Component):
         op, cf = parse_case(case)
         return ['fe=' + cf['fe'], 'partial=' + ('yes' if cf.get('partial', '0') != '0' else 'no'), 'ncalls=' + str(min(5, cf.get('chunks', '-').count(',') + 1))]
 
+# ------------------------------------------------------------------------------------------------
+# C09 — finished files against their own header
+# ------------------------------------------------------------------------------------------------
+class EncFile(Component):
+    name = 'encfile'
+    ops = ('wr',)
+    profiles = ('release',)
+    ignore = ('file',)
+    def cases(self, rng, tier, boost):
+        out = []
+        n = self.budget(tier, boost, 450, 30000)
+        for i in range(n):
+            ch = rng.choice([1, 1, 2, 2, 3, 6])
+            bps = rng.choice([8, 16, 24, 12, 5, 32])
+            bs = rng.choice([16, 16, 17, 24, 32, 64])
+            nblocks = rng.choice([1, 2, 3, 4, 5, 8, 12, 20])
+            frames = bs * nblocks + rng.choice([0, 0, 1, 3, bs - 1])
+            if frames * ch > 1500 and tier == 'quick':
+                frames = max(1, 1500 // ch)
+            pcm, shape = gen.pcm_multi(rng, frames, ch, bps)
+            fe = rng.choice(['byte', 'sample', 'chan'])
+            rate = rng.choice([44100, 8, 16, 20, 50, 100, 1000, 0 if False else 7])
+            seek = rng.choice(['off', 'default', 'frames:1', 'frames:2', 'frames:5', 'secs:1', 'secs:2', 'secs:255'])
+            pad = rng.choice([0, 0, 4, 17, 18, 22, 40, 58, 100, 300, None])
+            f = {'fe': fe, 'endian': rng.choice(['le', 'be']), 'rate': rate, 'ch': ch, 'bps': bps, 'bs': bs, 'seek': seek,
+                 'lpc': rng.choice(['none', '2', '8']), 'start': rng.choice([0, 0, 0, 1, 13, 100])}
+            if pad is not None:
+                f['pad'] = pad
+            unit = {'byte': ch * ((bps + 7) // 8), 'sample': ch, 'chan': 1}[fe]
+            if rng.random() < 0.5:
+                f['total'] = frames * unit
+            f['chunks'] = gen.join([rng.randint(1, max(1, frames * unit)) for _ in range(rng.randint(0, 3))])
+            f['pcm'] = gen.join(pcm)
+            out.append('wr ' + gen.fields_str(f))
+        # more frames than a seek table can hold (932067 points), undeclared length, a point per frame
+        out.append('wr fe=sample rate=44100 ch=1 bps=8 bs=16 seek=frames:1 lpc=none pcmgen=const:14913088:3')
+        return out
+    def oracle(self, case, impl, profile):
+        op, cf = parse_case(case)
+        h, cls, f = parse_outcome(impl)
+        if h == 'panic':
+            return (f'{self.name}:panic:{cls}', 'encoder/finalize panicked: ' + cls)
+        if 'pcmgen' in cf:
+            return None if h == 'ok' else (f'{self.name}:failed:{cls}', impl[:200])
+        if h != 'ok':
+            return (f'{self.name}:failed:{cls}', 'writing a legal file failed: ' + impl[:200])
+        if f.get('prefin_ok') != 'true':
+            return (f'{self.name}:finalize-disturbed-frames', 'the header rewrite at finalize changed bytes outside the metadata region')
+        if 'regen_ok' in f and f['regen_ok'] != 'true':
+            return (f'{self.name}:seektable-regeneration-differs', 'generate_seektable over the finished file gives other defined points: ' + f['regen_ok'])
+        if 'walkerr' in f or 'walkopen' in f:
+            return (f'{self.name}:unreadable', 'the finished file cannot be walked frame by frame')
+        return None
+    def classify(self, case, impl):
+        op, cf = parse_case(case)
+        return ['seek=' + cf.get('seek', '?').split(':')[0], 'total=' + ('declared' if 'total' in cf else 'open'),
+                'pad=' + ('default' if 'pad' not in cf else 'none' if cf['pad'] == '0' else 'small' if int(cf['pad']) < 60 else 'big'),
+                'start=' + ('0' if cf.get('start', '0') == '0' else 'offset')]
+
 PROPS = {}
 NOT_YET = {}
 
@@ -698,4 +761,24 @@ PROPS['C08'] = dict(
          'comparison on every case (and across runs), not proved. MD5 and byte-order conversion per block vs per stream are checked by the correspondence.',
     trusted_base=COMMON_TRUST,
     assumptions=['a block is a whole number of PCM frames (q divides F) - true by construction of frame_byte_size / frame_sample_size'],
+)
+
+PROPS['C09'] = dict(
+    module='FlacModel.Props.C09',
+    theorems=['Flac.C09.record_points', 'Flac.C09.seekpoints_invariant', 'Flac.C09.truePoints_truthful', 'Flac.C09.filter_sublist',
+              'Flac.C09.written_points_truthful', 'Flac.C09.points_sorted', 'Flac.C09.finalize_preserves_metadata_len', 'Flac.C09.frame_size_extrema'],
+    components=[EncFile()],
+    rule='450 (quick) / 30000 (thorough) files: byte/sample/channel writer x seek policy {off, default 10 s, every 1/2/5 frames, every 1/2/255 s at low rates} x '
+         'total declared or discovered at finalize x padding {absent, too small for a table, exactly one/two points, ample, default} x writer pre-positioned at a '
+         'non-zero offset, plus the 932068-frame stream that overflows a seek table; the bookkeeping model predicts every STREAMINFO/SEEKTABLE/PADDING field and '
+         'the metadata length from the observed frame lengths and sizes; the L0 decoder walks the finished file against its own header',
+    claim='seekpoints_invariant (induction over any frame sequence): point i = (samples before, bytes before from the first frame, length of frame i), samples_written = total; '
+          'written_points_truthful: every defined point finalize can write, under either interval filter, names a real frame (this discharges C06\'s TableTruthful for files '
+          'written by the crate); points_sorted; finalize_preserves_metadata_len: in all three layout cases SEEKTABLE + first PADDING occupy the same bytes after as before, so the '
+          'rewrite cannot reach the first frame; frame_size_extrema: recorded min/max are bounds attained within (0, 2^24-1).',
+    note='STREAMINFO\'s MD5 = md5 of the little-endian PCM, truthful channel/rate/depth fields, untouched frames during the header rewrite and seek-table regeneration are decided '
+         'by the file-level L0 walk and harness observations on every case, not by a theorem. seektable_regen_eq follows from seekpoints_invariant because both sides apply '
+         'the same filter to the same triples; the frame walk that produces the triples is covered by the correspondence.',
+    trusted_base=COMMON_TRUST,
+    assumptions=['frame byte sizes are taken from the finished file'],
 )
